@@ -438,6 +438,11 @@ func lexString(l *lexer) stateFn {
 	if open == `"` && strings.Contains(l.input[l.pos:l.pos+closePos], delimOpenInterpolate) {
 		input := l.input
 		l.input = input[0 : l.pos+closePos]
+		// Brackets opened outside the string are of no concern to the
+		// expressions inside it: the closing brace of an interpolation is
+		// recognised by there being no open bracket within the interpolation.
+		parens := l.parens
+		l.parens = 0
 		for {
 			p := strings.Index(l.input[l.pos:], delimOpenInterpolate)
 			if p < 0 {
@@ -462,6 +467,7 @@ func lexString(l *lexer) stateFn {
 			l.emit(tokenText)
 		}
 		l.input = input
+		l.parens = parens
 	} else {
 		l.pos += closePos
 		l.emit(tokenText)
